@@ -373,15 +373,32 @@ func (p *Prog) addSpecFile(sf *SpecFile) error {
 			if p.axTriggers == nil {
 				p.axTriggers = map[string][]axTrigger{}
 			}
+			// forall a :: forall b :: body  -- triggers are ghost calls f(a, b) on exactly the bound variables
+			vars := []string{fa.Var}
+			body := fa.Body
+			for {
+				inner, ok := body.(EForall)
+				if !ok {
+					break
+				}
+				vars = append(vars, inner.Var)
+				body = inner.Body
+			}
 			seen := map[string]bool{}
 			var walk func(x Expr)
 			walk = func(x Expr) {
 				switch x := x.(type) {
 				case ECall:
-					if len(x.Args) == 1 {
-						if id, ok := x.Args[0].(EIdent); ok && id.Name == fa.Var && !seen[x.Fn] {
+					if len(x.Args) == len(vars) && !seen[x.Fn] {
+						match := true
+						for i, a := range x.Args {
+							if id, ok := a.(EIdent); !ok || id.Name != vars[i] {
+								match = false
+							}
+						}
+						if match {
 							seen[x.Fn] = true
-							p.axTriggers[x.Fn] = append(p.axTriggers[x.Fn], axTrigger{ax: ax, v: fa.Var, body: fa.Body, id: len(p.Axioms)})
+							p.axTriggers[x.Fn] = append(p.axTriggers[x.Fn], axTrigger{ax: ax, vars: vars, body: body, id: len(p.Axioms)})
 						}
 					}
 					for _, a := range x.Args {
@@ -399,7 +416,7 @@ func (p *Prog) addSpecFile(sf *SpecFile) error {
 					walk(x.I)
 				}
 			}
-			walk(fa.Body)
+			walk(body)
 		}
 	}
 	p.Lemmas = append(p.Lemmas, sf.Lemmas...)
@@ -627,7 +644,7 @@ func (p *Prog) buildGuards() {
 
 type axTrigger struct {
 	ax   *Clause
-	v    string
+	vars []string
 	body Expr
 	id   int
 }
